@@ -6,7 +6,7 @@ python data owned by one path.
 """
 import ast, z3, copy, hashlib
 from .ty import *
-from .registry import SPEC, LEMMAS, CLASSES, CONTRACTS, INLINE, CONSTS, Contract
+from .registry import SPEC, LEMMAS, CLASSES, CONTRACTS, INLINE, CONSTS, Contract, GHOSTS
 from . import registry
 
 
@@ -215,6 +215,7 @@ class Engine:
         self.old_stack = []
         self.inline_stack = []
         self.ghost = {}
+        self.ghostv = {}
 
     def fresh(self, name, ty):
         self.fresh_ctr += 1
@@ -450,6 +451,8 @@ class Engine:
                 fr.env[name] = self.fresh_of(name, ty)
         for name, ty in c.ghost.items():
             fr.env[name] = self.fresh_of(name, ty)
+        for name, ty in GHOSTS.items():
+            self.ghostv[name] = self.fresh("ghost_" + name, ty)
 
     def fresh_of(self, name, ty, assume_inv=True):
         if isinstance(ty, TObj):
@@ -553,7 +556,7 @@ class Engine:
         self.frame_ok = set()
         for m in c.modifies:
             self.frame_ok |= self.reachable(fr.env.get(m))
-        self.old_stack.append((self.entry_env, self.entry_heap))
+        self.old_stack.append((self.entry_env, self.entry_heap, dict(self.ghostv)))
         for (ln, exprs) in c.hints:
             self.add_hint(ln, exprs, fr.env)
         is_gen = any(isinstance(n, (ast.Yield, ast.YieldFrom)) for n in ast.walk(node))
@@ -1358,6 +1361,8 @@ class Engine:
         if n in fr.env:
             return fr.env[n]
         if self.spec_mode or (self.frames and self.frames[0].contract is not None and self.frames[0].contract.body is not None):
+            if n in self.ghostv:
+                return self.ghostv[n]
             if n in SPEC:
                 return SPEC[n]
             if n in CONSTS:
